@@ -25,29 +25,63 @@ def _measure(t):
     W = FC.param_width(mod, gfn, 1)
     ev = ctx.enum_value(fld['enum']) & B.mask(W)
     ws = bpa.analyse(mod, f['get_field'], lambda: ([Ptr(FC.PDU, 0), ev], {FC.PDU: Region(FC.PDU, 'sym', N)}),
-                     max_worlds=2, gcache=ctx.gcache)
-    out['get'] = ws[0].ret if len(ws) == 1 and ws[0].status == 'ok' else None
-    out['get_err'] = None if out['get'] is not None else [w.reason for w in ws]
+                     max_worlds=16, gcache=ctx.gcache)
+    oks, err = FC.ok_worlds(ws)
+    out['get'] = [(list(w.decisions), w.ret) for w in oks] if not err else None
+    out['get_err'] = err
     sfn = ctx.fn(f['set_field'])
     P = FC.param_width(mod, sfn, 2)
     ws = bpa.analyse(mod, f['set_field'], lambda: ([Ptr(FC.PDU, 0), ev, bpa.sym_arg('v', P)], {FC.PDU: Region(FC.PDU, 'sym', N)}),
-                     max_worlds=2, gcache=ctx.gcache)
-    if len(ws) == 1 and ws[0].status == 'ok':
-        r = ws[0].regions[FC.PDU]
-        out['set'] = {o: r.mem[o] for o in r.writes}
-        # drop octets whose content is unchanged
-        out['set'] = {o: v for o, v in out['set'].items() if B.to_bits(v, 8) != tuple(('I', FC.PDU, o, b) for b in range(8))}
+                     max_worlds=16, gcache=ctx.gcache)
+    oks, err = FC.ok_worlds(ws)
+    if not err:
+        out['set'] = []
+        for w in oks:
+            r = w.regions[FC.PDU]
+            out['set'].append((list(w.decisions), {o: r.mem[o] for o in r.writes}))
     else:
         out['set'] = None
-        out['set_err'] = [w.reason for w in ws]
+        out['get_err'] = out['get_err'] or err
     # dedicated accessors, where present
     out['dget'] = None
     if fld['getter']:
-        ws = bpa.analyse(mod, fld['getter'], lambda: ([Ptr(FC.PDU, 0)], {FC.PDU: Region(FC.PDU, 'sym', N)}), max_worlds=2, gcache=ctx.gcache)
-        if len(ws) == 1 and ws[0].status == 'ok':
+        ws = bpa.analyse(mod, fld['getter'], lambda: ([Ptr(FC.PDU, 0)], {FC.PDU: Region(FC.PDU, 'sym', N)}), max_worlds=16, gcache=ctx.gcache)
+        oks, err = FC.ok_worlds(ws)
+        if not err:
             R = FC.ret_width(mod, ctx.fn(fld['getter']))
-            out['dget'] = B.norm(tuple(B.to_bits(ws[0].ret, R)) + (0,) * (64 - R))
+            out['dget'] = [(list(w.decisions), B.norm(tuple(B.to_bits(w.ret, R)) + (0,) * (64 - R))) for w in oks]
     return out
+
+
+def pairs(la, lb):
+    for (da, xa) in la:
+        for (db, xb) in lb:
+            dec = da + db
+            if B.PathCond(dec).infeasible:
+                continue
+            yield xa, xb, dec
+
+
+def vec_differs(la, lb):
+    """-> description of a difference between two multi-world results, or None"""
+    for xa, xb, dec in pairs(la, lb):
+        with FC.with_world(dec):
+            st, info = FC.compare_vec(xa, B.to_bits(xb, 64), 64)
+        if st != 'eq':
+            return '%s vs %s' % (B.fmt_vec(xa, 64).replace('0 ', ''), B.fmt_vec(xb, 64).replace('0 ', ''))
+    return None
+
+
+def mem_differs(la, lb):
+    for ma, mb, dec in pairs(la, lb):
+        with FC.with_world(dec):
+            for o in sorted(set(ma) | set(mb)):
+                a = B.to_bits(ma[o], 8) if o in ma else tuple(('I', FC.PDU, o, b) for b in range(8))
+                b = B.to_bits(mb[o], 8) if o in mb else tuple(('I', FC.PDU, o, b) for b in range(8))
+                st, info = FC.compare_vec(a, b, 8)
+                if st != 'eq':
+                    return 'octet %d: %s vs %s' % (o, B.fmt_vec(a, 8), B.fmt_vec(b, 8))
+    return None
 
 
 def same_mem(a, b):
@@ -82,14 +116,15 @@ def run(ctx, tier, res, tag=''):
                         res.undec('%s: a view could not be analysed: %s %s' % (desc, a.get('get_err'), b.get('get_err')))
                         continue
                     bad = []
-                    if B.to_bits(a['get'], 64) != B.to_bits(b['get'], 64):
-                        bad.append('%s returns %s but %s returns %s'
-                                   % (ctx.formats[a['fmt']]['get_field'], B.fmt_vec(a['get'], 64).replace('0 ', ''),
-                                      ctx.formats[b['fmt']]['get_field'], B.fmt_vec(b['get'], 64).replace('0 ', '')))
-                    if not same_mem(a['set'], b['set']):
-                        bad.append('%s changes octets %s but %s changes octets %s (or different bits of them)'
-                                   % (ctx.formats[a['fmt']]['set_field'], sorted(a['set']), ctx.formats[b['fmt']]['set_field'], sorted(b['set'])))
-                    if a['dget'] is not None and b['dget'] is not None and B.to_bits(a['dget'], 64) != B.to_bits(b['dget'], 64):
+                    d = vec_differs(a['get'], b['get'])
+                    if d:
+                        bad.append('%s and %s return different bits (%s)'
+                                   % (ctx.formats[a['fmt']]['get_field'], ctx.formats[b['fmt']]['get_field'], d))
+                    d = mem_differs(a['set'], b['set'])
+                    if d:
+                        bad.append('%s and %s leave different bytes (%s)'
+                                   % (ctx.formats[a['fmt']]['set_field'], ctx.formats[b['fmt']]['set_field'], d))
+                    if a['dget'] is not None and b['dget'] is not None and vec_differs(a['dget'], b['dget']):
                         bad.append('the dedicated getters disagree')
                     if bad:
                         res.violation(key + tag, 'src/avtp (%s vs %s tables): %s: %s' % (a['fmt'], b['fmt'], desc, '; '.join(bad)))
@@ -97,8 +132,8 @@ def run(ctx, tier, res, tag=''):
                         res.ok()
                         if len(res.samples) < 6 and i == 0 and j == 1:
                             res.sample({'family': fa['name'], 'field': fl['default'], 'views': [a['fmt'], b['fmt']],
-                                        'read_result': B.fmt_vec(a['get'], 64).replace('0 ', ''),
-                                        'octets_changed_by_write': sorted(a['set'])})
+                                        'read_result': B.fmt_vec(a['get'][0][1], 64).replace('0 ', ''),
+                                        'octets_written': sorted(a['set'][0][1])})
     res.rule = ('for every family of spec/families.json, every shared field and every pair of views: the measured closed form of '
                 'the by-identifier read, the measured effect of the by-identifier write and the dedicated getters must be identical')
     res.extra['exhaustive'] = True
